@@ -20,7 +20,7 @@ import z3
 
 from .common import *  # noqa
 from symx.solver import prove_zero, prove_formula, assume_z3
-from symx.val import EngineError
+from symx.val import EngineError, SymbolicEscape
 from symx.poly import tofrac
 from symx import harness as H
 from . import C34
@@ -58,10 +58,58 @@ class _ExactLinalg(shim._Linalg):
         return out
 
 
+class TypedBuf(realnp.ndarray):
+    """Object array that remembers the numeric dtype numpy would have given the buffer and casts on assignment the way
+    numpy does (ndarray.__setitem__ casts 'unsafe': storing into an integer buffer truncates towards zero).  Values stay
+    exact; a non-constant symbolic value stored into an integer buffer cannot be represented and escapes."""
+
+    def __array_finalize__(self, obj):
+        self._kind = getattr(obj, "_kind", None) if (obj is not None and self.base is not None) else getattr(self, "_kind", None)
+
+    def _cast(self, e):
+        if self._kind not in ("i", "u"):
+            return e
+        if isinstance(e, Cx):
+            e = e.re  # numpy drops the imaginary part (ComplexWarning)
+        if isinstance(e, SR):
+            if not e.is_const():
+                raise SymbolicEscape("symbolic value stored into an integer-dtype buffer")
+            e = Fraction(e.const_value())
+        if isinstance(e, (bool, realnp.bool_)):
+            return int(e)
+        fr = Fraction(e) if not isinstance(e, (float, realnp.floating)) else Fraction(float(e))
+        return SR(Q(Poly.const(int(fr))))  # int() truncates towards zero, as the C cast does
+
+    def __setitem__(self, key, value):
+        if self._kind in ("i", "u"):
+            if isinstance(value, realnp.ndarray) or isinstance(value, (list, tuple)):
+                value = shim.emap(self._cast, realnp.asarray(value, dtype=object))
+            else:
+                value = self._cast(value)
+        realnp.ndarray.__setitem__(self, key, value)
+
+
+def typed_zeros(shape, kind):
+    buf = realnp.empty(shape, dtype=object).view(TypedBuf)
+    buf._kind = kind
+    for idx in realnp.ndindex(buf.shape):
+        realnp.ndarray.__setitem__(buf, idx, SR(0))
+    return buf
+
+
 class NP(C34.NP):
     def __init__(self):
         super().__init__()
         self.linalg = _ExactLinalg(self)
+
+    def zeros_like(self, a, dtype=None, **k):
+        """buffer with the dtype numpy would choose: for a concrete numeric array the buffer keeps that array's kind
+        (integer buffers truncate what is stored into them), for symbolic / object input an ordinary object array"""
+        if dtype is None and isinstance(a, realnp.ndarray) and a.dtype != object and a.dtype.kind in "iuf":
+            return typed_zeros(a.shape, a.dtype.kind)
+        if dtype is not None and realnp.dtype(dtype).kind in "iu":
+            return typed_zeros(realnp.shape(a), realnp.dtype(dtype).kind)
+        return super().zeros_like(a, dtype=dtype, **k)
 
     def einsum(self, *a, **k):
         k.pop("optimize", None)  # contraction order does not change the value; plain einsum works on object arrays
@@ -197,6 +245,54 @@ def case_flavor_const(log, func_name, source, target, X):
                            sampler=lambda rng: {})
         if new.error is not None:
             log.inconclusive.append("%s: error tensor appeared from nowhere" % fn)
+        log.twin("")
+        log.collect_ctx()
+
+    _r, pm = explore(run)
+    log.path_stats(pm)
+
+
+DTYPE_MATRICES = {
+    # name -> rows; integer entries, inverse not integer-valued
+    "2x2": [[1, -1], [1, 1]],
+    "3x3": [[2, 1, 0], [1, 3, 1], [0, 1, 2]],
+    "2x2diag": [[2, 0], [0, 4]],
+}
+
+
+def case_flavor_dtype(log, mat, dtype, sides, X=2):
+    """flavor_reshape with a CONCRETE rotation matrix handed over as a numpy array of integer or float dtype (as callers do:
+    br.rotate_flavor_to_evolution is int64), symbolic operator / error tensor / input vector.  The same integer-valued
+    matrix must act identically whatever its dtype."""
+    man, ip, np_ = load()
+    log.encode(man.flavor_reshape)
+    rows = DTYPE_MATRICES[mat]
+    F = len(rows)
+
+    def run():
+        O = sym_tensor("O", (F, X, F, X))
+        E = sym_tensor("E", (F, X, F, X))
+        f = sym_tensor("f", (F, X))
+        Rnp = realnp.array(rows, dtype=dtype)  # what the real function receives
+        R = realnp.empty((F, F), dtype=object)
+        for a in range(F):
+            for b in range(F):
+                R[a, b] = SR(Q(Poly.const(int(rows[a][b]))))
+        Rt = Rnp.copy() if sides in ("target", "both") else None
+        Ri = Rnp.copy() if sides in ("input", "both") else None
+        new = man.flavor_reshape(man.Operator(operator=O, error=E), targetpids=Rt, inputpids=Ri)
+        for T, Tn, key in ((O, new.operator, "flavor_reshape:commute"), (E, new.error, "flavor_reshape:error")):
+            lhs = _apply(Tn, _rot(R, f) if Ri is not None else f)
+            rhs = _apply(T, f)
+            rhs = _rot(R, rhs) if Rt is not None else rhs
+            for c in range(F):
+                for j in range(X):
+                    v = prove_zero(SR(0) + lhs[c, j] - rhs[c, j], "flavor_reshape(%s, %s matrix of dtype %s)%s: [new.(R_in f)]_%d,%d == [R_out.(op.f)]_%d,%d"
+                                   % (sides, mat, realnp.dtype(dtype).name, " [error tensor]" if T is E else "", c, j, c, j))
+                    decide(log, v, key=key, replay=(MOD, "replay_flavor_dtype", {"mat": mat, "dtype": realnp.dtype(dtype).name, "sides": sides, "X": X, "err": T is E}),
+                           sampler=lambda rng: {}, candidates=[{}])
+        if realnp.array_equal(Rnp, realnp.array(rows, dtype=dtype)) is False:
+            raise EngineError("rotation matrix modified in place")
         log.twin("")
         log.collect_ctx()
 
@@ -502,6 +598,35 @@ def replay_flavor(point, F, X, sides, err=False):
     return None
 
 
+def replay_flavor_dtype(point, mat, dtype, sides, X, err=False):
+    import warnings
+
+    import numpy as np
+    from eko.io import manipulate
+    from eko.io.items import Operator
+
+    rows = DTYPE_MATRICES[mat]
+    F = len(rows)
+    R = np.array(rows, dtype=float)  # oracle: plain float matrix algebra
+    Rt = np.array(rows, dtype=dtype) if sides in ("target", "both") else None
+    Ri = np.array(rows, dtype=dtype) if sides in ("input", "both") else None
+    O = _rng_tensor(1, (F, X, F, X))
+    E = _rng_tensor(2, (F, X, F, X))
+    f = _rng_tensor(3, (F, X))
+    with warnings.catch_warnings():
+        warnings.simplefilter("ignore")
+        new = manipulate.flavor_reshape(Operator(operator=O.copy(), error=E.copy()), targetpids=Rt, inputpids=Ri)
+    T, Tn = (E, new.error) if err else (O, new.operator)
+    fin = R @ f if Ri is not None else f
+    lhs = np.einsum("cjdk,dk->cj", Tn, fin)
+    rhs = np.einsum("ajbk,bk->aj", T, f)
+    rhs = R @ rhs if Rt is not None else rhs
+    if np.max(np.abs(lhs - rhs)) > 1e-8 * max(1.0, np.max(np.abs(rhs))):
+        return {"detail": "flavor_reshape(%s) with the %s-dtype matrix %r%s: new.(R_in f) = %r but R_out.(op.f) = %r"
+                          % (sides, dtype, rows, " [error tensor]" if err else "", lhs.tolist(), rhs.tolist())}
+    return None
+
+
 def replay_flavor_const(point, fn, source, target, X):
     import numpy as np
     from eko import basis_rotation as br
@@ -615,6 +740,8 @@ def main():
     chk.bounds = [
         "flavour rotations: fully symbolic operator, error tensor, input vector and rotation matrices for flavour dimension 2 (x-grid 2) and 3 (x-grid 1; thorough also 3 with x-grid 2), "
         "target / input / both (for dimension 3 and for 'both': matrices whose [0,0] entry is outside allclose's tolerance of 1, which bounds the paths through numpy.allclose); to_evol and to_uni_evol with the constant 14x14 matrices on a fully symbolic 14 x X x 14 x X operator, X = 1 (thorough: 2), all three (source, target) combinations",
+        "concrete integer-valued rotation matrices passed as numpy arrays of integer and float dtype (2x2, 3x3; int64/int32/float64, thorough also uint8/float32), "
+        "symbolic operator, error tensor and input vector; buffers allocated with zeros_like keep numpy's dtype and cast on assignment as numpy does",
         "x-grid re-interpolation: old grid of n = 3..4 (thorough: up to 6) symbolic sorted nodes, log and linear, interpolation degree 1..2 (thorough: up to 3), flavour dimension 1; "
         "new grids given by position patterns relative to the old nodes (node itself / strictly inside an interval / between the neighbours of a node) with symbolic positions",
         "polynomial test functions: all monomials u^m, m <= degree, with symbolic coefficient tensors (target side) / all monomials (input side)",
@@ -628,6 +755,8 @@ def main():
     ]
     chk.stubs = [
         "numpy.linalg.inv on a constant integer matrix: exact rational inverse (contract of inv); on a symbolic matrix: adjugate / determinant with det != 0 recorded",
+        "numpy.zeros_like(concrete numeric array): object buffer tagged with the source dtype kind; item assignment into an integer-kind buffer truncates towards zero "
+        "(numpy's unsafe cast); arithmetic between concrete integer arrays and symbolic tensors is exact",
         "numpy.einsum(..., optimize='optimal'): evaluated as plain einsum on object arrays (contraction order does not change the value)",
         "numpy.unique / numpy.log / numpy.allclose as in C34",
     ]
@@ -637,6 +766,11 @@ def main():
         chk.case("flavor.sym.F3X1.%s" % sides, case_flavor_sym, F=3, X=1, sides=sides, first_far=True)
         if thorough:
             chk.case("flavor.sym.F3X2.%s" % sides, case_flavor_sym, F=3, X=2, sides=sides, first_far=True)
+    dcfg = [("2x2", "int64", "input"), ("2x2", "int64", "both"), ("2x2", "float64", "input"), ("3x3", "int32", "input"), ("2x2diag", "int64", "both"), ("3x3", "int64", "target")]
+    if thorough:
+        dcfg += [(m, d, sd) for m in DTYPE_MATRICES for d in ("int64", "int32", "uint8", "float64", "float32") for sd in ("target", "input", "both") if (m, d, sd) not in dcfg and not (d == "uint8" and m == "2x2")]
+    for m, d, sd in dcfg:
+        chk.case("flavor.dtype.%s.%s.%s" % (m, d, sd), case_flavor_dtype, mat=m, dtype=d, sides=sd)
     for fn in ("to_evol", "to_uni_evol"):
         for source, target in ((True, False), (False, True), (True, True)):
             chk.case("%s.s%d.t%d" % (fn, source, target), case_flavor_const, func_name=fn, source=source, target=target, X=2 if thorough else 1)
